@@ -164,7 +164,7 @@ RUN_INV = {
 }
 
 
-def run_and_record(ctx, cases, keep_runs=False):
+def run_and_record(ctx, cases, keep_runs=False, file_layout=False):
     """cases: list of (name, text, optargs[, extra dict]). Returns (records, metas, runs)."""
     cfgrec, cfgt = cfg_record()
     recs, metas, runs = [], [], []
@@ -181,6 +181,9 @@ def run_and_record(ctx, cases, keep_runs=False):
             try:
                 recs.append(trace_record(r, text, optargs, cfgrec, cfgt, keeppen=extra.get("keeppen", 0), name=name))
                 meta["groups"] = len(recs[-1]["G"]["AVR"])
+                if file_layout and r.pka_text:
+                    from . import pkafile
+                    recs[-1]["_pkafile"] = pkafile.record(r, name)
             except Exception as ex:  # noqa
                 import traceback
                 meta["exc"] = "observe: " + "".join(traceback.format_exception_only(type(ex), ex)).strip()
